@@ -533,9 +533,7 @@ def run(ctx):
     if not ctx.quick and ctx.shard in (1 % ctx.nshards, 2 % ctx.nshards):
         check_real_sockets(ctx, rng)
     for k in ('framing-run', 'framing-eof', 'delivered', 'bystander-pending-ok', 'bystander-handler-ok'):
-        if not ctx.events.get(k):
-            ctx.inconclusive(f'monitor {k} observed nothing')
-    if ctx.shard == 0 and not ctx.events.get('udp-datagram'):
-        ctx.inconclusive('udp sub-check observed nothing')
+        ctx.need_event(k)
+    ctx.need_event('udp-datagram')
     ctx.assumptions = ['handler exceptions and validator exceptions of user code are outside the statement (harness handlers never raise)',
                        '"legitimately addressed" = the bytes strictly decode (refcodec) to a Data/Nack matching the pending Interest']
